@@ -29,6 +29,12 @@ def frank_tau(theta):
     return t if theta > 0 else -t
 
 
+def frank_limit(tau):
+    """admissible Debye residual of a Frank calibration: least_squares stops at a cost of ~1e-8, which around tau = 0 (flat relation)
+    leaves up to 2e-3; for |tau| >= 0.05 the unchanged code stays below 2e-6"""
+    return 5e-3 if abs(tau) < 0.05 else 2e-5
+
+
 def given_cases(seed, count):
     """random longer rank columns: small and large |tau|, with and without ties"""
     rs = np.random.RandomState(seed)
@@ -48,6 +54,15 @@ def given_cases(seed, count):
             x = (x + 1) // 2
             y = (y + 2) // 3
         out.append({'x': [int(v) for v in x], 'y': [int(v) for v in y]})
+    # Kendall tau exactly 0 on longer columns (the boundary between "Frank only" and "several candidates")
+    want = max(12, 2 * count // 3)
+    while want:
+        n = int(rs.choice([8, 9, 12, 16, 20, 24]))
+        y = rs.permutation(n) + 1
+        sgn = np.sign(y[None, :] - y[:, None])
+        if int(np.triu(sgn, 1).sum()) == 0:
+            out.append({'x': list(range(1, n + 1)), 'y': [int(v) for v in y]})
+            want -= 1
     return out
 
 
@@ -136,7 +151,7 @@ def _check(case):
                 probs.append((fam, 'inadmissible-theta', repr(theta)))
             else:
                 res = abs(frank_tau(theta) - exp_tau)
-                lim = 5e-3
+                lim = frank_limit(exp_tau)
                 if res > lim:
                     probs.append((fam, 'theta-is-not-the-calibration-of-tau', 'Debye residual %.3g at tau %r theta %r' % (res, exp_tau, theta)))
         # an accepted model is usable: its CDF answers on interior points with values in [0, 1]
@@ -172,7 +187,7 @@ def run(ctx):
                 'verdict per family in integers (exact rational theta without ties); each case is fitted by the real Clayton, Frank and '
                 'Gumbel on pseudo-observations with exactly those ranks; plus random longer columns (n up to 35) whose S, D1, D2 TLC computes the same way; plus out-of-range inputs.  non-trivial = non-constant columns; '
                 'distinct by (x, y)') % (('6', '4') if quick else ('7', '5'))
-    ctx.assumptions = ['Frank calibration is judged by an independent quadrature of the Debye relation (residual <= 5e-3: least_squares stops at a cost of about 1e-8, and around tau = 0, where the relation is flat, '
+    ctx.assumptions = ['Frank calibration is judged by an independent quadrature of the Debye relation (residual <= 2e-5, and <= 5e-3 for |tau| < 0.05: least_squares stops at a cost of about 1e-8, and around tau = 0, where the relation is flat, '
                        'the unchanged code is off by up to 1.8e-3; at tau = 0 itself a refusal is accepted too)',
                        'Frank on data with |tau| = 1 is outside the property (tau in (-1,1))']
     cases = get_cases(ctx, 6 if quick else 7, 4 if quick else 5, given_cases(ctx.seed + 1, 80 if quick else 600))
